@@ -48,6 +48,7 @@ func (c *CommandCache) Get(ctx context.Context) (*Batch, error) {
 		select {
 		case <-c.ready:
 			// A batch might be ready
+			verifYield("get-woken")
 		case <-ctx.Done():
 			return nil, ctx.Err()
 		}
